@@ -3,6 +3,7 @@ package main
 // C16 — lazy parameters delay, memoise and stay lexical; strict ones do not.
 
 import (
+	"go/constant"
 	"fmt"
 	"go/token"
 	"go/types"
@@ -38,6 +39,7 @@ func checkC16(c *Ctx) {
 	c.explainf("C16 decides: the three places that marshal arguments for a compiled function (run-time preparation, compile-time generation, apply/map) decide laziness with the same predicate IsLazyCallArg(index), build the wrapper only on its true branch (source wrapper on the source routes, value wrapper on apply/map) and evaluate/push every other position exactly once; Go builtins never receive a wrapper; the laziness flags are written only where formals are declared, from the # sigil; positions in a variadic tail are never lazy; forcing returns the memo when forced and otherwise stores value and forced flag on every success path; the wrapper captures scope stack and current function and forcing installs exactly those inside a capture/restore bracket; substitute cannot reach force. It does not decide effect counts or order for concrete programs.")
 	c.checkArgsReadAtCall("C16-DOT")
 	c.checkNamedLaziness("C16-NAMED")
+	c.checkTailArgsForSelf("C16-SELFARGS")
 	isLazy := c.mustFn("C16-SITES", "SexpFunction.IsLazyCallArg")
 	newSrc := c.mustFn("C16-SITES", "NewSourceLazyArg")
 	newVal := c.mustFn("C16-SITES", "NewValueLazyArg")
@@ -402,45 +404,105 @@ func (c *Ctx) checkForcedOnlyOnSuccess(rule string) {
 }
 
 // checkRegisteredBeforeBody: a function is known to the compiler before its own body is compiled.
+// checkTailArgsForSelf: the tail jump re-enters the function being compiled, so its arguments have
+// to be prepared for that function's parameters. knownFunctions is keyed by the bare name and is
+// overwritten by any later definition of the same name (a nested defn in a lambda that is never
+// called is enough); the argument preparation of the tail path must take the function from the
+// generator's own record of what it is compiling, not from the by-name table alone.
+func (c *Ctx) checkTailArgsForSelf(rule string) {
+	call := c.mustFn(rule, "Generator.GenerateCallBySymbol")
+	prepArgs := c.mustFn(rule, "Generator.GenerateCallArgsForFunction")
+	lookup := c.fn("Generator.LookupKnownFunction")
+	if call == nil || prepArgs == nil {
+		return
+	}
+	for _, site := range callsOf(call, prepArgs) {
+		args := site.Common().Args
+		if len(args) < 2 {
+			continue
+		}
+		byNameOnly := true
+		for _, leaf := range phiLeaves(args[1]) {
+			if cl, ok := leaf.(*ssa.Call); ok && lookup != nil && cl.Call.StaticCallee() == lookup {
+				continue
+			}
+			byNameOnly = false
+		}
+		c.check(!byNameOnly, rule, "Generator.GenerateCallBySymbol", "tail-call arguments prepared for the function being compiled", site.Pos(),
+			"the function handed to the argument preparation comes from the generator's record of the function it is compiling (the by-name table is only a fallback)",
+			"the arguments of the tail self-call are prepared for whatever knownFunctions holds under the callee's name: a nested definition of the same name compiled earlier (even inside a lambda that is never called) decides which arguments are wrapped lazily, while the jump lands in the function being compiled; a strict parameter receives an unevaluated promise, or a lazy one is evaluated")
+	}
+}
+
 func (c *Ctx) checkRegisteredBeforeBody(rule string) {
-	if f := c.mustFn(rule, "buildSexpFun"); f != nil {
-		known := c.field("Generator", "knownFunctions")
-		var regs []ssa.Instruction
-		var bodies []ssa.Instruction
-		if known != nil {
-			eachInstr(f, func(b *ssa.BasicBlock, i int, in ssa.Instruction) {
-				switch x := in.(type) {
-				case *ssa.MapUpdate:
-					if derivesFromField(x.Map, known, 0) {
+	known := c.field("Generator", "knownFunctions")
+	fname := c.field("Generator", "funcname")
+	if known == nil || fname == nil {
+		c.undecided(rule, "Generator", "anchor", token.NoPos, "Generator.knownFunctions / funcname not found")
+		return
+	}
+	selfF := c.field("Generator", "self")
+	if selfF != nil && !c.tailArgsFromSelf() {
+		selfF = nil // the record exists but the tail path does not read it: only the by-name table counts
+	}
+	// the routines that compile a named function's body with self-call recognition: they store the
+	// function's name into Generator.funcname and then generate the body
+	n := 0
+	for _, f := range c.zygoFuncs() {
+		if f.Parent() != nil {
+			continue
+		}
+		namesSelf := false
+		var regs, bodies []ssa.Instruction
+		eachInstr(f, func(b *ssa.BasicBlock, i int, in ssa.Instruction) {
+			switch x := in.(type) {
+			case *ssa.Store:
+				// the generator's own record of the function it compiles serves the same purpose as the
+				// by-name table when the tail path reads it (C16-SELFARGS decides that it does)
+				if fa, ok := x.Addr.(*ssa.FieldAddr); ok && selfF != nil && faField(fa) == selfF {
+					if k, isConst := x.Val.(*ssa.Const); !isConst || k.Value != nil {
 						regs = append(regs, in)
 					}
-				case *ssa.Call:
-					if g := x.Call.StaticCallee(); g != nil && (fnName(g) == "Generator.GenerateBegin" || fnName(g) == "Generator.Generate" || fnName(g) == "Generator.GenerateAll") {
-						bodies = append(bodies, in)
+				}
+				if fa, ok := x.Addr.(*ssa.FieldAddr); ok && faField(fa) == fname {
+					_, copied := loadOfField(x.Val, fname) // a sub-generator inherits the name: not a new function
+					if k, isConst := x.Val.(*ssa.Const); !copied && (!isConst || (k.Value != nil && constant.StringVal(k.Value) != "")) {
+						namesSelf = true
 					}
 				}
-			})
-		}
-		if len(regs) == 0 || len(bodies) == 0 {
-			c.undecided(rule, "buildSexpFun", "registered before its body is compiled", f.Pos(), "registration in knownFunctions or body generation not found")
-		} else {
-			ok := true
-			for _, bd := range bodies {
-				dominated := false
-				for _, r := range regs {
-					// registration under `if len(name) > 0`: the guard block's branch dominates, the body is after the join
-					if dominatesInstr(r, bd) || (blockReaches(r.Block(), bd.Block()) && !blockReaches(bd.Block(), r.Block())) {
-						dominated = true
-					}
+			case *ssa.MapUpdate:
+				if derivesFromField(x.Map, known, 0) {
+					regs = append(regs, in)
 				}
-				if !dominated {
-					ok = false
+			case *ssa.Call:
+				if g := x.Call.StaticCallee(); g != nil && (fnName(g) == "Generator.GenerateBegin" || fnName(g) == "Generator.Generate" || fnName(g) == "Generator.GenerateAll") {
+					bodies = append(bodies, in)
 				}
 			}
-			c.check(ok, rule, "buildSexpFun", "registered before its body is compiled", regs[0].Pos(),
-				"the function (with its lazy formals) is in knownFunctions when its own body is compiled: a self call marshals its arguments like any other call",
-				"the function is registered only after its body was compiled: while the body compiles, a self call finds no (or a stale) definition, so arguments for lazy formals are compiled eagerly and the compile-time and run-time marshalling disagree")
+		})
+		if !namesSelf || len(bodies) == 0 {
+			continue
 		}
+		n++
+		ok := len(regs) > 0
+		for _, bd := range bodies {
+			dominated := false
+			for _, r := range regs {
+				// registration under `if len(name) > 0`: the guard block's branch dominates, the body is after the join
+				if dominatesInstr(r, bd) || (blockReaches(r.Block(), bd.Block()) && !blockReaches(bd.Block(), r.Block())) {
+					dominated = true
+				}
+			}
+			if !dominated {
+				ok = false
+			}
+		}
+		c.check(ok, rule, fnName(f), "registered before its body is compiled", bodies[0].Pos(),
+			"the function (with its lazy formals) is known to the generator (its own record, or knownFunctions) when its body is compiled: a self call marshals its arguments for this definition",
+			"the routine names the function for self-call recognition and compiles its body, but the function is not known to the generator at that time (neither recorded as the function being compiled nor in knownFunctions; it is registered afterwards or not at all): a self call in the body finds no definition, or a previous one of that name, so arguments for lazy formals are compiled eagerly (or strict ones lazily) and the compile-time and run-time marshalling disagree")
+	}
+	if n < 2 {
+		c.undecided(rule, "package", "routines that compile a named function body", token.NoPos, fmt.Sprintf("only %d found (buildSexpFun and FuncBuilder confirmed by reading)", n))
 	}
 }
 
@@ -610,4 +672,31 @@ func (c *Ctx) checkNamedLaziness(rule string) {
 			"the index asked about comes from a routine that pairs labels with declared parameter names",
 			"laziness is decided by the position of the expression in the call: in a call with named arguments (f #a: (bump) b: 5) position 1 is the value of the first label, not parameter 1, so the value of a lazy parameter is evaluated before the call and the value of a strict one is wrapped unevaluated (and then fails the type check)")
 	}
+}
+
+// tailArgsFromSelf: the argument preparation of the tail path takes its function from something other than the by-name table.
+func (c *Ctx) tailArgsFromSelf() bool {
+	call := c.fn("Generator.GenerateCallBySymbol")
+	prepArgs := c.fn("Generator.GenerateCallArgsForFunction")
+	lookup := c.fn("Generator.LookupKnownFunction")
+	selfF := c.field("Generator", "self")
+	if call == nil || prepArgs == nil || selfF == nil {
+		return false
+	}
+	ok := false
+	for _, site := range callsOf(call, prepArgs) {
+		args := site.Common().Args
+		if len(args) < 2 {
+			continue
+		}
+		for _, leaf := range phiLeaves(args[1]) {
+			if cl, isCall := leaf.(*ssa.Call); isCall && lookup != nil && cl.Call.StaticCallee() == lookup {
+				continue
+			}
+			if _, fromSelf := loadOfField(leaf, selfF); fromSelf {
+				ok = true
+			}
+		}
+	}
+	return ok
 }
